@@ -137,6 +137,9 @@ func writeEvidence(outDir, prop, tier string, seed int, results []*harnessResult
 		assumptions = append(assumptions, "library model / stub used: "+m)
 	}
 	sort.Strings(assumptions[3:])
+	if len(scheduleNotes) > 0 {
+		assumptions = append(assumptions, fmt.Sprintf("%d witness path(s) of concurrent harnesses were taken through another interleaving by the native scheduler (not bound to the executor's schedule); they were validated by deterministic re-execution on the SSA instead", len(scheduleNotes)))
+	}
 	ev := map[string]interface{}{
 		"property_id": prop,
 		"tier":        tier,
